@@ -12,6 +12,7 @@ From QSX Require Import Store.Matrix Store.L2.
 From QSX Require Import IO.LpWrite IO.LpRead IO.MpsWrite IO.LpRoundtrip IO.LpNames.
 From QSX Require Import Store.RawLoad.
 From QSX Require Import Fac.LUFactor Fac.TopoOrder.
+From QSX Require Import Store.GuardDefs Gen.Guards.
 (* one Require line per area may be added below *)
 
 Extraction Language OCaml.
@@ -36,5 +37,6 @@ Extraction "model.ml"
   write_lp file_bytes read_lp_res split_lines to_nlp write_mps wf_lpb fix_names default_objname
   lib_load_raw_c merge_col_c
   lu_factor lu_steps lu_init lu_kernel lu_auto_pivots repr_same_lu repair_cols check_sing_report lines_eqb etas_eqb natlist_eqb listed_order_ok
+  guards guard_accepts role_accepts
   (* add names below, one line per area *)
   .
